@@ -43,7 +43,7 @@
 #endif
 
 enum { OP_INFO = 0, OP_HASH_STREAM, OP_HASH_ONESHOT, OP_HASH_HEX, OP_HMAC_STREAM,
-       OP_HMAC_ONESHOT, OP_HMAC_GET, OP_HMAC_HEX, OP_INJECT, OP_HMAC_STACKSCAN, OP_RADIUS_MA_STACKSCAN, OP_HASH_STACKSCAN };
+       OP_HMAC_ONESHOT, OP_HMAC_GET, OP_HMAC_HEX, OP_INJECT, OP_HMAC_STACKSCAN, OP_RADIUS_MA_STACKSCAN, OP_HASH_STACKSCAN, OP_HUGE_ONESHOT };
 enum { F_NATIVE = 0, F_GENERIC, F_SSE, F_AVX, F_SHANI };
 #define NALG 8
 #define CANARY 0xA5
@@ -680,6 +680,24 @@ static void op_radius_ma_stackscan(vin_t *in, vout_t *o) { (void)in; vout_u8(o, 
 static void op_hash_stackscan(vin_t *in, vout_t *o) { (void)in; vout_u8(o, 3); }
 #endif
 
+/* One call that carries 2^32 bytes or more: u8 alg, u8 hex, u64 n -> u8 status, blob digest/text.
+ * The message is n zero octets in a lazily backed anonymous mapping (no memory is committed for reading zero pages). */
+#include <sys/mman.h>
+static void op_huge_oneshot(vin_t *in, vout_t *o) {
+	int alg = vin_u8(in) % NALG, hex = vin_u8(in);
+	uint64_t n = vin_u64(in);
+	size_t osz = hex ? hsz[alg] * 2 + 1 : hsz[alg], rsz = 0;
+	uint8_t *m, *out;
+	if (in->bad || n > ((uint64_t)1 << 34)) { vout_u8(o, 2); return; }
+	m = mmap(NULL, (size_t)n, PROT_READ, MAP_PRIVATE | MAP_ANONYMOUS | MAP_NORESERVE, -1, 0);
+	if (m == MAP_FAILED) { vout_u8(o, 3); return; }
+	out = out_alloc(osz);
+	if (hex) h_hex(alg, 0, (const char *)m, (size_t)n, (char *)out, &rsz);
+	else h_oneshot(alg, 0, m, (size_t)n, out, &rsz);
+	vout_u8(o, 0); vout_blob(o, out, osz);
+	munmap(m, (size_t)n); free(out);
+}
+
 int main(void) {
 	uint8_t *c; size_t len;
 	vout_t o = { 0 };
@@ -698,6 +716,7 @@ int main(void) {
 		case OP_HMAC_STACKSCAN: op_hmac_stackscan(&in, &o); break;
 		case OP_RADIUS_MA_STACKSCAN: op_radius_ma_stackscan(&in, &o); break;
 		case OP_HASH_STACKSCAN: op_hash_stackscan(&in, &o); break;
+		case OP_HUGE_ONESHOT: vdrv_case_secs = 300; vdrv_arm(); op_huge_oneshot(&in, &o); vdrv_case_secs = 20; break;
 		default: vout_u8(&o, 2); break;
 		}
 		vout_flush(&o);
